@@ -200,9 +200,12 @@ def search(ctx):
         # (a) single vs closed form
         if cf and math.isfinite(cf["DL"]):
             if "formula" not in rec or len(labels) == len(rec["tree"]):
-                if abs(rec["nll"] - cf["nll"]) > TOL or abs(rec["DL"] - cf["DL"]) > TOL + (0 if "formula" not in rec else 1e-9):
+                # the formula entry point builds its own tree (e.g. a0*x - x becomes ['*','x','+','-1.0','a0']): same function, same
+                # likelihood and parameter code, but the tree code is that of the labels it returns
+                want_dl = cf["DL"] if "formula" not in rec else cf["nll"] + cf["codelen"] + fitlib.aifeyn_of(labels)
+                if abs(rec["nll"] - cf["nll"]) > TOL or abs(rec["DL"] - want_dl) > TOL + (0 if "formula" not in rec else 1e-9):
                     rep.fail("failing-input", "single-tree fit of %r returns (-logL, DL) = (%.5f, %.5f) but the closed form is (%.5f, %.5f)" % (
-                        labels, rec["nll"], rec["DL"], cf["nll"], cf["DL"]), "C20:single-vs-closed-form", input=inp, observed={"nll": rec["nll"], "DL": rec["DL"]}, expected=cf)
+                        labels, rec["nll"], rec["DL"], cf["nll"], want_dl), "C20:single-vs-closed-form", input=inp, observed={"nll": rec["nll"], "DL": rec["DL"]}, expected=dict(cf, DL=want_dl))
                     continue
             # (b) DL is the sum of the returned likelihood, the parameter code length and the tree code
             if "formula" not in rec and abs((rec["DL"] - rec["nll"] - fitlib.aifeyn_of(rec["tree"])) - cf["codelen"]) > TOL:
